@@ -59,6 +59,10 @@ func main() {
 		smoke()
 	case "scn":
 		os.Exit(scnCmd(os.Args[2:]))
+	case "calltracer":
+		os.Exit(calltracerCmd(os.Args[2:]))
+	case "codec":
+		os.Exit(codecCmd(os.Args[2:]))
 	case "keytree":
 		os.Exit(keytreeCmd(os.Args[2:]))
 	}
